@@ -120,6 +120,12 @@ func (u *Unmarshaler) fillMap(fieldType reflect.Type, value reflect.Value, mapVa
 		return errValueNotSettable
 	}
 
+	// 指向字典的指针字段（*map[K]V）：先分配，再填充其所指的字典
+	if fieldType.Kind() == reflect.Ptr {
+		maybeNewValue(fieldType, value)
+		fieldType, value = fieldType.Elem(), value.Elem()
+	}
+
 	fieldKeyType := fieldType.Key()
 	fieldElemType := fieldType.Elem()
 	targetValue, err := u.generateMap(fieldKeyType, fieldElemType, mapValue)
@@ -159,6 +165,12 @@ func (u *Unmarshaler) fillMapFromString(value reflect.Value, mapValue any) error
 func (u *Unmarshaler) fillSlice(fieldType reflect.Type, value reflect.Value, mapValue any) error {
 	if !value.CanSet() {
 		return errValueNotSettable
+	}
+
+	// 指向切片的指针字段（*[]T）：先分配，再填充其所指的切片
+	if fieldType.Kind() == reflect.Ptr {
+		maybeNewValue(fieldType, value)
+		fieldType, value = fieldType.Elem(), value.Elem()
 	}
 
 	baseType := fieldType.Elem()
@@ -237,6 +249,11 @@ func (u *Unmarshaler) fillSliceFromString(fieldType reflect.Type, value reflect.
 		}
 	default:
 		return errUnsupportedType
+	}
+
+	if fieldType.Kind() == reflect.Ptr {
+		maybeNewValue(fieldType, value)
+		fieldType, value = fieldType.Elem(), value.Elem()
 	}
 
 	baseFieldType := Deref(fieldType.Elem())
